@@ -92,6 +92,7 @@ type Flow struct {
 	CFG  *cfg.CFG
 
 	comm    map[ast.Node]bool       // comm statements of select clauses (evaluated at the case, not before)
+	lastComm map[*ast.CommClause]bool // the last clause of a select without default: "not taken" is impossible there (the select blocks)
 	caseTag map[ast.Expr]*ast.SwitchStmt
 	inl      map[*ast.CallExpr]*inlined // prepared callee copies per call site (nil = not inlinable)
 	inlStack []*Func                    // callees being inlined around this flow
@@ -145,7 +146,7 @@ func (p *Prog) flowOf(node ast.Node, body *ast.BlockStmt, pkg *packages.Package,
 		return f
 	}
 	f := &Flow{P: p, Pkg: pkg, Info: pkg.TypesInfo, Node: node, Body: body, Name: name,
-		comm: map[ast.Node]bool{}, caseTag: map[ast.Expr]*ast.SwitchStmt{}, inl: map[*ast.CallExpr]*inlined{}}
+		comm: map[ast.Node]bool{}, lastComm: map[*ast.CommClause]bool{}, caseTag: map[ast.Expr]*ast.SwitchStmt{}, inl: map[*ast.CallExpr]*inlined{}}
 	f.prepare()
 	p.flows[node] = f
 	return f
@@ -154,11 +155,23 @@ func (p *Prog) flowOf(node ast.Node, body *ast.BlockStmt, pkg *packages.Package,
 // prepare indexes the select/switch clauses of the body and builds its CFG.
 func (f *Flow) prepare() {
 	node, body, pkg := f.Node, f.Body, f.Pkg
+	if f.lastComm == nil {
+		f.lastComm = map[*ast.CommClause]bool{}
+	}
 	ast.Inspect(body, func(n ast.Node) bool {
 		switch s := n.(type) {
 		case *ast.FuncLit:
 			return n == node
 		case *ast.SelectStmt:
+			hasDefault := false
+			for _, c := range s.Body.List {
+				if c.(*ast.CommClause).Comm == nil {
+					hasDefault = true
+				}
+			}
+			if !hasDefault && len(s.Body.List) > 0 {
+				f.lastComm[s.Body.List[len(s.Body.List)-1].(*ast.CommClause)] = true
+			}
 			for _, c := range s.Body.List {
 				if cc := c.(*ast.CommClause); cc.Comm != nil {
 					f.comm[cc.Comm] = true
@@ -391,6 +404,9 @@ func (f *Flow) enumerate() {
 				case body.Kind == cfg.KindSelectCaseBody:
 					cc := body.Stmt.(*ast.CommClause)
 					ev = Event{Kind: EvSelect, Pos: cc.Pos(), Clause: cc, Taken: taken, Block: b.Index}
+					if !taken && f.lastComm[cc] {
+						continue // a select without default waits until one of its cases is taken
+					}
 					if taken {
 						extra = f.commEvents(cc, body.Index)
 					}
